@@ -1,4 +1,5 @@
 import A5.Model.GenericGeo
+import A5.Lemmas.RadialRoundTrip
 import Mathlib.Tactic.Ring
 import Mathlib.Tactic.FieldSimp
 import Mathlib.Tactic.LinearCombination
@@ -14,8 +15,13 @@ Generic twins (`A5/Model/GenericGeo.lean`): `A5.G.faceToBarycentricG`, `A5.G.bar
 
 T1, T2 are proved about the twins over an arbitrary field; T3, T5 are theorems about the float model itself
 (every `Float`, including NaN and ±∞).  The analytic part of the property (the spherical ⇄ planar triangle
-maps `polyhedralForward` / `polyhedralInverse` being mutually inverse) is not proved here; the full
-property is kept as `projection_roundtrip_statement`. -/
+maps `polyhedralForward` / `polyhedralInverse` being mutually inverse) is proved only in its RADIAL half (T6, over ℝ,
+`A5/Lemmas/RadialRoundTrip.lean`): `safe_acos x = acos(1 - 2x²) = 2·asin x` up to 2.1e-16 on [0,1] including across
+its small-angle switch (the switch value is the regenerated `Gen.SAFE_ACOS_SWITCH`, pinned to [1e-3, 1.001e-3] by
+`safe_acos_switch_value`), `vector_difference` is the sine of half the angle, `slerp` walks the great circle, and the
+inverse's `t = safe_acos(h k)/safe_acos(k)` recovers exactly the arc fraction the forward's `h = sin(AV/2)/sin(AP/2)`
+encodes.  The ANGULAR half (which point `P` of the edge `BC` the area ratio designates) and float rounding are not
+proved; the full property is kept as `projection_roundtrip_statement`. -/
 namespace A5.C15
 open A5 A5.G
 
@@ -274,5 +280,47 @@ example : barycentricToFaceG (1 / 4 : ℚ) (1 / 4) (1 / 2) 0 0 4 0 0 2 = (1, 1) 
 example : reflectApexG (2 : ℚ) 0 0 (midpointG (2 : ℚ) 2 1 2 (-1)).1 (midpointG (2 : ℚ) 2 1 2 (-1)).2 = (4, 0) := by
   norm_num [reflectApexG, midpointG]
 example : ((2 : ℚ) - 0) ^ 2 + (1 - 0) ^ 2 = (2 - 0) ^ 2 + (-1 - 0) ^ 2 := by norm_num
+
+/-! ## T6: the radial half of the round trip, over ℝ -/
+
+open A5.RadialRoundTrip in
+/-- T6a. the small-angle switch of `safe_acos`, as regenerated from `polyhedral.rs`, is the `f64` nearest to `1e-3` -/
+theorem safe_acos_switch_value :
+    safeAcosSwitchQ = 1152921504606847 / 2 ^ 60 ∧ 1 / 1000 ≤ safeAcosSwitchQ ∧ safeAcosSwitchQ ≤ 1001 / 1000000 :=
+  safeAcosSwitchQ_bounds
+
+open A5.RadialRoundTrip in
+/-- T6b. the real twin of `safe_acos` (tied to the Float model by `safeAcos_tie`, `rfl`) is `2·arcsin x` to 1e-15 on
+`[0, 1]`, on both sides of the switch. -/
+theorem safe_acos_is_two_arcsin {x : ℝ} (hx0 : 0 ≤ x) (hx1 : x ≤ 1) :
+    |safeAcosR x - 2 * Real.arcsin x| ≤ 1e-15 ∧ Real.arccos (1 - 2 * x ^ 2) = 2 * Real.arcsin x :=
+  ⟨safeAcosR_error hx0 hx1, arccos_one_sub_two_sq hx0 hx1⟩
+
+open A5.RadialRoundTrip in
+/-- T6c. `radial_roundtrip`: for a point `V` on the arc from the apex `A` to `P` (arc lengths `0 ≤ AV ≤ AP ≤ π`), the
+forward map stores `h = sin(AV/2)/sin(AP/2)`; the inverse computes `t = safe_acos(h k)/safe_acos(k)` with
+`k = sin(AP/2)` and walks the fraction `t` of the arc: it arrives at arc length `AV` exactly with the exact
+`2·arcsin`, and within 5e-16 rad with the code's two-branch `safe_acos`. -/
+theorem radial_roundtrip {AV AP : ℝ} (h0 : 0 ≤ AV) (h1 : AV ≤ AP) (h2 : 0 < AP) (h3 : AP ≤ Real.pi) :
+    (2 * Real.arcsin (Real.sin (AV / 2) / Real.sin (AP / 2) * Real.sin (AP / 2))) /
+        (2 * Real.arcsin (Real.sin (AP / 2))) * AP = AV ∧
+    |safeAcosR (Real.sin (AV / 2) / Real.sin (AP / 2) * Real.sin (AP / 2)) / safeAcosR (Real.sin (AP / 2)) * AP - AV|
+      ≤ 5e-16 :=
+  ⟨radial_roundtrip_exact h0 h1 h2 h3, radial_roundtrip_safeAcos h0 h1 h2 h3⟩
+
+open A5.RadialRoundTrip in
+/-- T6d. the vector form: `vector_difference` of unit vectors is the sine of half their angle, `slerp` (non-lerp
+branch) stays on the unit sphere at angle `t·γ` from its first argument, and unprojecting the forward image of
+`v = slerp a p s` along the same arc returns `v` (exactly with `2·arcsin`, within 5e-16 with `safe_acos`). -/
+theorem radial_roundtrip_vectors {a p : R3} {s : ℝ} (hs0 : 0 ≤ s) (hs1 : s ≤ 1)
+    (ha : dotR a a = 1) (hp : dotR p p = 1) (hγ : slerpSwitch ≤ angleR a p) (hπ : angleR a p < Real.pi) :
+    vectorDifferenceR a p = Real.sin (angleR a p / 2) ∧
+    angleR a (slerpR a p s) = s * angleR a p ∧
+    slerpR a p ((2 * Real.arcsin (vectorDifferenceR a (slerpR a p s) / vectorDifferenceR a p * vectorDifferenceR a p)) /
+        (2 * Real.arcsin (vectorDifferenceR a p))) = slerpR a p s ∧
+    lengthR (subR (slerpR a p (safeAcosR (vectorDifferenceR a (slerpR a p s) / vectorDifferenceR a p *
+        vectorDifferenceR a p) / safeAcosR (vectorDifferenceR a p))) (slerpR a p s)) ≤ 5e-16 :=
+  ⟨vectorDifferenceR_eq ha hp hπ, slerpR_angle hs0 hs1 ha hp hγ hπ,
+    (radial_roundtrip_vector hs0 hs1 ha hp hγ hπ).2, (radial_roundtrip_vector_safeAcos hs0 hs1 ha hp hγ hπ).2⟩
 
 end A5.C15
